@@ -67,7 +67,7 @@ def _setup(kname):
         def kern(t):
             save(zeta_energy=t.get_score() * 1.0)
             t1 = mh(t, sel("x"))
-            save(alpha_moved=t1.get_choices()["x"] - t.get_choices()["x"])
+            save(alpha_marker=jnp.float32(7.0) + 0.0 * t1.get_score())
             return t1
 
         per_step = 2
@@ -163,6 +163,8 @@ def work(item, tier, seed):
     if acc.shape != lead + (n,):
         res.violate(PROP, f"accepts-shape:{sig0}", shape=list(acc.shape), **det0)
         return res
+    if acc.dtype != np.bool_ and not np.all((acc == 0) | (acc == 1)):
+        res.violate(PROP, f"accepts-not-flags:{sig0}", accepts=acc, **det0)
     if base.n_steps.value != n:
         res.violate(PROP, f"n_steps:{sig0}", reported=base.n_steps.value, **det0)
     if not H.close(np.asarray(base.acceptance_rate), np.mean(acc.astype(np.float64)), rtol=1e-5, atol=1e-6):
